@@ -297,12 +297,16 @@ def batched_unsorted_probe(ctx):
     permutations)"""
     from xitorch.interpolate import Interp1D
     g = torch.Generator().manual_seed(ctx.seed + 17)
-    for method, kw in (("linear", {}), ("cspline", {"bc_type": "natural"}), ("cspline", {"bc_type": "not-a-knot"})):
+    # every boundary condition (round-5 seed C14/13: the clamped end row was zeroed for the last grid of the batch only)
+    for method, kw in (("linear", {}), ("cspline", {"bc_type": "natural"}), ("cspline", {"bc_type": "not-a-knot"}),
+                       ("cspline", {"bc_type": "clamped"}), ("cspline", {"bc_type": "periodic"})):
         for nb, n in ((2, 5), (3, 7)):
             xs_sorted = torch.cumsum(torch.rand(nb, n, dtype=DT, generator=g) + 0.2, dim=-1)
             perms = torch.stack([torch.randperm(n, generator=g) for _ in range(nb)])
             x = torch.gather(xs_sorted, -1, perms)
             y_sorted = torch.randn(nb, n, dtype=DT, generator=g)
+            if kw.get("bc_type") == "periodic":
+                y_sorted[:, -1] = y_sorted[:, 0]
             y = torch.gather(y_sorted, -1, perms)
             lo, hi = xs_sorted[:, :1].max(), xs_sorted[:, -1:].min()
             q = lo + (hi - lo) * torch.rand(4, dtype=DT, generator=g)
